@@ -1171,6 +1171,7 @@ static void do_deliver(ep_t *src, int count, int chunk)
     ep_t *dst = src->peer;
     unsigned char *buf;
     int total = 0, i, ids0 = -1, origin = 0, itype = -1, imsg = -1, wsec = 0, kmatch = 0, seqm = 0, auth = 0, alvl = -1, adesc = -1;
+    unsigned char seenkey[12]; int have_seenkey = 0;
     if (!dst) die("endpoint %s has no peer", src->name);
     if (count > src->qn) count = src->qn;
     if (count <= 0) return;
@@ -1194,7 +1195,7 @@ static void do_deliver(ep_t *src, int count, int chunk)
                 unsigned char key[12];
                 memcpy(key, &r0->kfp, 4); memcpy(key + 4, r0->b + 3, 8);
                 for (k2 = 0; k2 < dst->seenn; k2++) if (memcmp(dst->seen[k2], key, 12) == 0) seqm = 0;
-                if (seqm && dst->seenn < 512) memcpy(dst->seen[dst->seenn++], key, 12);
+                memcpy(seenkey, key, 12); have_seenkey = 1;
             }
         }
         else
@@ -1228,6 +1229,11 @@ static void do_deliver(ep_t *src, int count, int chunk)
     else
     {
         ep_feed(dst, buf, total);
+    }
+    /* DTLS: a datagram counts as "seen" by the receiver only if its record layer took it */
+    if (have_seenkey && dst->sub.n && strstr(dst->sub.s, "\"k\":\"R\"") && dst->seenn < 512)
+    {
+        memcpy(dst->seen[dst->seenn++], seenkey, 12);
     }
     if (dst->autoflush) ep_flush(dst, 0);
     emit_begin(&g_out, "deliver", dst);
@@ -1593,13 +1599,14 @@ static void cmd_hsedit(char **tok, int ntok)
         int k = atoi(tok[3]);
         if (k < 0 || k >= nm || (!strcmp(op, "swap") && (atoi(tok[4]) < 0 || atoi(tok[4]) >= nm))) op = "split";
         if (!strcmp(op, "del")) { rec_free(&msgs[k]); memmove(&msgs[k], &msgs[k + 1], sizeof(rec_t) * (nm - k - 1)); nm--; }
-        else if (!strcmp(op, "dup")) { memmove(&msgs[k + 1], &msgs[k], sizeof(rec_t) * (nm - k)); msgs[k + 1] = rec_make(msgs[k].b, msgs[k].n, 1); nm++; }
+        else if (!strcmp(op, "dup")) { memmove(&msgs[k + 1], &msgs[k], sizeof(rec_t) * (nm - k)); msgs[k + 1] = rec_make(msgs[k].b, msgs[k].n, 4); nm++; }
         else if (!strcmp(op, "swap")) { int k2 = atoi(tok[4]); rec_t t; if (k2 < 0 || k2 >= nm) die("hsedit swap"); t = msgs[k]; msgs[k] = msgs[k2]; msgs[k2] = t; }
         else if (!strcmp(op, "split")) { /* just re-frame */ }
         else die("hsedit: unknown op");
         for (i = 0; i < nm; i++)
         {
-            msgs[i].origin = !strcmp(op, "split") ? 6 : 1;
+            /* message bytes are the sender's own; only record framing / order / multiplicity changed */
+            if (msgs[i].origin != 4) msgs[i].origin = 6;
             msgs[i].itype = 22; msgs[i].imsg = msgs[i].b[hl]; msgs[i].wsec = 0;
             q_insert(e, first + i, msgs[i]);
         }
